@@ -2,7 +2,7 @@
 # usage: try_refactor_wt.sh <n> [props...] — like try_refactor.sh but on a scratch worktree (leaves /repo untouched)
 N=$1; shift
 WT=/tmp/wt/tryr-$$
-git -C /repo worktree add --detach $WT HEAD >/dev/null 2>&1 || exit 2
+git -C /repo worktree add --detach $WT ${BASE:-HEAD} >/dev/null 2>&1 || exit 2
 git -C $WT apply /tmp/refactors/$N/patch.diff || { echo "patch does not apply"; git -C /repo worktree remove --force $WT; exit 2; }
 cd /verif
 export VERIF_REPO=$WT
